@@ -25,6 +25,7 @@ def parse_comments(text: str) -> tuple[list[dict], list[tuple[int, str]]]:
     comments: list[dict] = []
     outside: list[tuple[int, str]] = []
     i = 0
+    attr_decls: list[tuple[str, str]] = []  # (enclosing class, python name) of every `attr` declaration
     stack: list[tuple[int, str]] = []  # (indent, python name) of the class blocks that are open at the current line
     pending_pyname: str | None = None
     while i < len(lines):
@@ -52,6 +53,9 @@ def parse_comments(text: str) -> tuple[list[dict], list[tuple[int, str]]]:
                     ind = len(lines[j]) - len(lines[j].lstrip(" "))
             if opens:
                 stack.append((ind, mcls.group(1) or pending_pyname or mcls.group(2)))
+        mattr = _DECL.match(ln)
+        if mattr and mattr.group("kind") == "attr" and stack:
+            attr_decls.append((stack[-1][1], mattr.group("pn") or mattr.group("name")))
         if st and not st.startswith(("@", "//", "/**", "*")):
             pending_pyname = None
         if ln.strip().startswith("/**"):
@@ -89,6 +93,7 @@ def parse_comments(text: str) -> tuple[list[dict], list[tuple[int, str]]]:
             continue
         outside.append((i + 1, ln))
         i += 1
+    parse_comments.last_attr_decls = attr_decls  # type: ignore[attr-defined]
     return comments, outside
 
 
@@ -146,6 +151,7 @@ def attachment_violations(pkg: dict, res: dict, nc: bool = False, matched_style:
     if not table or res.get("outcome") != "completed":
         return viols, stats
     seen: set[str] = set()
+    all_attr_decls: set[tuple[str, str, str]] = set()
     companions = _companions(table)
     # griffe's Sphinx parser folds the continuation lines of a `:param:` field into one line (reST semantics), and the plain
     # text parser has no notion of parameters: multi-line parameter descriptions are only judged for NumPy and Google style
@@ -158,6 +164,7 @@ def attachment_violations(pkg: dict, res: dict, nc: bool = False, matched_style:
         text = ent["data"].decode("utf-8", "replace")
         comments, outside = parse_comments(text)
         stats["comments"] += len(comments)
+        all_attr_decls.update((rel, cls, name) for cls, name in parse_comments.last_attr_decls)  # type: ignore[attr-defined]
         for lineno, ln in outside:
             for tok in _TOKEN.findall(ln):
                 if tok in table:
@@ -239,6 +246,19 @@ def attachment_violations(pkg: dict, res: dict, nc: bool = False, matched_style:
                         "path": rel, "line": c["line"], "token": tok, "token_belongs_to": info, "found_on": d,
                         "comment": c["text"][:400], "fingerprint": {"gkey": f"wrong-element-{info['kind']}"}}})
     stats["tokens_seen"] = len(seen)
+    if matched_style and pkg.get("doc_style") in ("NUMPYDOC", "GOOGLE"):
+        # a documented attribute that is declared in the stubs carries its description
+        classes = sorted(probes.get("classes") or [], key=len, reverse=True)
+        for tok, info in table.items():
+            if info["kind"] != "A" or tok in seen:
+                continue
+            cls_names = {info["owner"].split(".")[-1]} | set(aliases.get(info["owner"], []))
+            hit = next(((rel, c, n) for rel, c, n in sorted(all_attr_decls) if c in cls_names and n == info["name"]), None)
+            same_short = [c for c in classes if c.split(".")[-1] in cls_names]
+            if hit is not None and len(same_short) <= 1:  # homonymous classes: cannot tell which one the declaration belongs to
+                viols.append({"class": "attribute-description-missing", "detail": {
+                    "path": hit[0], "token": tok, "token_belongs_to": info, "declared_in_class": hit[1],
+                    "fingerprint": {"gkey": "missing-A"}}})
     return viols, stats
 
 
